@@ -1,5 +1,5 @@
 SPECIFICATION Spec
-CONSTANT Ctx = "root"
+CONSTANT Ctx = "reqBody"
 INVARIANT KeywordsExact
 INVARIANT FirstDeviation
 INVARIANT NeedsTerminator
